@@ -97,7 +97,7 @@ def decorate(c, hist, tr):
         if o['op'] == 'new':
             o = dict(op='new', tr=tr, nres=2, rules=[dict(res=r['res'], N=list(r['N'])) for r in o['rules']])
         elif c.rng.random() < 0.3:
-            o['dt'] = c.rng.choice([1, 250, 499, 500, 1000, 10001])
+            o['dt'] = c.rng.choice([1, 250, 499, 500, 1000, 10001, 60001, 3600000])
         out.append(o)
     return out
 
@@ -165,7 +165,7 @@ def random_scenarios(c, n, tr):
             else:
                 o = dict(op='exit', id=pending.pop(rng.randrange(len(pending))))
             if rng.random() < 0.3:
-                o['dt'] = rng.choice([1, 250, 499, 500, 1000, 10001])
+                o['dt'] = rng.choice([1, 250, 499, 500, 1000, 10001, 59999, 60000, 60001, 120000, 3600000])   # (entries may be held for longer than any statistic window or RT bound)
             s.append(o)
         scns.append(s)
     return scns, tr
